@@ -540,7 +540,7 @@ def run(ctx):
         # stores into the new pixel buffer from a row buffer, as (base, offset polynomial) pairs: named row
         # / pixel pointers and hoisted offsets are seen through (E-POLY)
         from poly import Poly as _Poly
-        PLL = _Poly(L, u)
+        PLL = _Poly(L, u, stepping=True)
         groups = {}
         for x in walk(lbody):
             if x.get('kind') == 'BinaryOperator' and x.get('opcode') == '=':
@@ -559,8 +559,11 @@ def run(ctx):
                     offs = sorted({a_ for m_ in s_ for a_ in m_ if a_.endswith('_offset') and a_ != 'src_x_offset'})
                     if offs:
                         bmask[d_.get((), 0)] = '(%s)' % ' + '.join(offs)
-        ctx.check(lmap == {0: 2, 1: 1, 2: 0}, R, 'bi_rgb|loader-order', L, 'memory bytes (2,1,0) <- file bytes (0,1,2)', 'loader channel map (file->memory) is %s' % lmap)
-        ctx.check(all(lmap.get(i) == chan.get(i) for i in range(3)), R, 'bi_rgb|inverse', L, 'loader and saver are mutually inverse', 'loader map %s and saver map %s are not inverse' % (lmap, chan))
+        if not lmap:
+            ctx.undecided(R, 'bi_rgb|loader-order', L, 'the BI_RGB branch does not copy three bytes per pixel from a row buffer in a form the rule can read')
+            ctx.undecided(R, 'bi_rgb|inverse', L, 'loader channel map not readable')
+        ctx.check(not lmap or lmap == {0: 2, 1: 1, 2: 0}, R, 'bi_rgb|loader-order', L, 'memory bytes (2,1,0) <- file bytes (0,1,2)', 'loader channel map (file->memory) is %s' % lmap)
+        ctx.check(not lmap or all(lmap.get(i) == chan.get(i) for i in range(3)), R, 'bi_rgb|inverse', L, 'loader and saver are mutually inverse', 'loader map %s and saver map %s are not inverse' % (lmap, chan))
         okb = bmask.get(0, '').endswith('r_offset)') and bmask.get(1, '').endswith('g_offset)') and bmask.get(2, '').endswith('b_offset)') and bmask.get(3, '').endswith('a_offset)')
         okb = okb or (set(bmask) == {0, 1, 2, 3} and all(('%s_offset' % c_) in bmask[i] for i, c_ in enumerate('rgba')))
         if not bmask:
